@@ -66,6 +66,28 @@ theorem C01_nodes_are_id_paths {T : Table D} {K : Nat} {st : Bool} {join : D →
     (fun i hi => List.mem_range.mp hi)
   exact ⟨out, h1, h2, fun x hx => (h3 x hx).1⟩
 
+/-- consecutive entries of a walk are joined by links -/
+def LinkedFrom (link : Walk.Link) : Nat → Dir → List (Nat × Dir) → Prop
+  | _, _, [] => True
+  | x, d, (y, d') :: rest => link x d = some (y, d') ∧ LinkedFrom link y d' rest
+
+theorem walk_linked (link : Walk.Link) (avail : List Nat) (x : Nat) (d : Dir) :
+    LinkedFrom link x d (Walk.walk link avail x d).1 := by
+  fun_induction Walk.walk link avail x d with
+  | case1 avail x d y d' hl hy r ih => exact ⟨hl, ih⟩
+  | case2 avail x d y d' hl hy => trivial
+  | case3 avail x d hl => trivial
+
+/-- **C01 (recorded steps).** Every step between consecutive k-mers of a node — along the left path and along the
+    right path of `build_node` — is a good link: the k-mer being left records exactly one extension on that side
+    (the base of the step), the k-mer being entered records exactly one extension on the facing side, neither is a
+    palindrome (unstranded), and `join` accepted the pair. -/
+theorem C01_steps_recorded (T : Table D) (st : Bool) (join : D → D → Bool) (avail : List Nat) (seed : Nat) :
+    LinkedFrom (linkOf T st join) seed .L (leftW T st join avail seed).1 ∧
+    LinkedFrom (linkOf T st join) seed .R (rightW T st join avail seed).1 ∧
+    ∀ x d y d', linkOf T st join x d = some (y, d') → ∃ ex ey b, LinkFacts T st join x d y d' ex ey b :=
+  ⟨walk_linked _ _ _ _, walk_linked _ _ _ _, fun _ _ _ _ h => linkOf_inv T st join h⟩
+
 /-- **C01 (from reads).** For every read set (empty boundary extensions), every K ≥ 4, both summarizers, every
     memory budget, stranded or not, and whatever order the hash map lists the table in: filtering, pruning and
     compressing never panics, and the canonical k-mers of the node sequences are a permutation of the k-mers the
